@@ -32,6 +32,9 @@ func (d *D) String() string {
 	case 'E':
 		return "[]"
 	case 'S':
+		if len(d.Elems) == 0 {
+			return "[e]"
+		}
 		var ps []string
 		for _, e := range d.Elems {
 			ps = append(ps, e.String())
@@ -93,6 +96,8 @@ func parseD(s string) (*D, string, error) {
 		return &D{K: 'N'}, s[3:], nil
 	case strings.HasPrefix(s, "[]"):
 		return &D{K: 'E'}, s[2:], nil
+	case strings.HasPrefix(s, "[e]"):
+		return &D{K: 'S'}, s[3:], nil // empty, not nil
 	case strings.HasPrefix(s, "["):
 		d := &D{K: 'S'}
 		s = s[1:]
